@@ -1369,6 +1369,17 @@ func KeyFlow(d KeyParams) *Program {
 	leafSrc := Self("c")
 	if d.InnerLocal {
 		inner.Ins = inner.Ins[:1]
+		// the producer takes the outer element, so that it runs once per
+		// outer fork (a call that depends on nothing forked runs only once)
+		keys.Ins = append(keys.Ins, Param{T: IntT, Name: "dep"})
+		kin.Binds = append(kin.Binds, Bind{"dep", Self("x")})
+		if d.Outer != "" && d.OuterDyn {
+			for _, c := range top.Calls {
+				if c.Alias == "KOUT" {
+					c.Binds = append(c.Binds, Bind{"dep", Lit(Int(0))})
+				}
+			}
+		}
 		inner.Calls = append(inner.Calls, kin)
 		leafSrc = innerSrc
 	}
